@@ -182,7 +182,7 @@ CLAIMS.update({
         'models vs the real methods on every run (targets around every record/component boundary).  The property itself on generated Rock Ridge images (1.09/1.10/1.12 x XA, long '
         'names, CE gaps of exactly the needed size +-1, trees deeper than 8): an independent SUSP/RRIP reader recovers names, types, PX mode types, link counts, targets, the logical '
         'tree; entry lengths, CE/CL/PL pointers.'),
-  note=('Added model RRPlace.v (which System Use entries RockRidge.new creates and where: record vs continuation area; C08_placement_fits_the_record, C08_ce_entry_length_is_the_area, C08_placed_name_reads_back, C08_no_continuation_iff_first_fit, C08_placement_total for ALL inputs; tied by rrplaceleaf.py on a boundary grid incl. every record length 120..257 with every relocation flag).  The entry lengths all these models use are the length() static methods of rockridge.py TRANSLATED on every run (Gen/GenRR.v): C08_entry_lengths_are_the_source.  Continuation entries over whole edit histories (allocation, sharing, release with the last owner): Model/AccountRR.v, theorems in C04.  Added models: Nlink.v (directory link counts: 2 + #subdirs on the record, its dot and the children\'s dotdot after EVERY add/rm_directory history incl. refused edits, C08_nlink; depth <= 7, no relocation) and RREntries.v/RRWalk.v (every System Use entry codec, the walker and the recorder: entry round trips, self-describing lengths, C08_area_walk for any entry list; the two known symlink findings as _refuted theorems); tied by nlinkleaf.py (PX counts of the record objects) and rrleaf.py (System Use areas of generated images).  Relocation: Model/Reloc.v (RR_MOVED, CL placeholders, RE, PL as a state machine with the physical layout and an isofs-style reader): for EVERY accepted history the reader sees exactly the logical tree the edits imply (C08_relocation_reader_sees_the_logical_tree), every CL/PL/RE link lands where it should and is unique (C08_relocation_links_consistent), refused edits change nothing; what the recorded link counts are is proved, and where they deviate from 2 + logical sub-directories is stated as refuted theorems (root counts RR_MOVED; `..` of a relocated directory carries RR_MOVED\'s count; physical depth can exceed 8) -- link counts are not compared on images with a relocation directory; tied by relocleaf.py after EVERY operation incl. reopen and the written image.  Relocation together with continuation areas, Joliet or UDF is decided on sampled images by the reader.'),
+  note=('Added model RRPlace.v (which System Use entries RockRidge.new creates and where: record vs continuation area; C08_placement_fits_the_record, C08_ce_entry_length_is_the_area, C08_placed_name_reads_back, C08_no_continuation_iff_first_fit, C08_placement_total for ALL inputs; tied by rrplaceleaf.py on a boundary grid incl. every record length 120..257 with every relocation flag).  The entry lengths all these models use are the length() static methods of rockridge.py TRANSLATED on every run (Gen/GenRR.v): C08_entry_lengths_are_the_source.  Continuation entries over whole edit histories (allocation, sharing, release with the last owner): Model/AccountRR.v, theorems in C04.  Added models: Nlink.v (directory link counts: 2 + #subdirs on the record, its dot and the children\'s dotdot after EVERY add/rm_directory history incl. refused edits, C08_nlink; depth <= 7, no relocation) and RREntries.v/RRWalk.v (every System Use entry codec, the walker and the recorder: entry round trips, self-describing lengths, C08_area_walk for any entry list; the two known symlink findings as _refuted theorems); tied by nlinkleaf.py (PX counts of the record objects) and rrleaf.py (System Use areas of generated images).  Relocation: Model/Reloc.v (RR_MOVED, CL placeholders, RE, PL as a state machine with the physical layout and an isofs-style reader): for EVERY accepted history the reader sees exactly the logical tree the edits imply (C08_relocation_reader_sees_the_logical_tree), every CL/PL/RE link lands where it should and is unique (C08_relocation_links_consistent), refused edits change nothing; what the recorded link counts are is proved, and where they deviate from 2 + logical sub-directories is stated as refuted theorems (root counts RR_MOVED; `..` of a relocated directory carries RR_MOVED\'s count; physical depth can exceed 8) -- link counts are not compared on images with a relocation directory; tied by relocleaf.py after EVERY operation incl. reopen and the written image.  Relocation together with continuation areas, Joliet or UDF is decided on sampled images by the reader.  The whole image as BYTES: Model/MasterRR.v renders every directory extent (records with their System Use areas) and every continuation block over the states of Model/AccountRR.v, with an isofs-style SUSP/RRIP reader on those bytes: for EVERY edit history (names and targets of any length, versions 1.09/1.10/1.12) the reader recovers every Rock Ridge name, mode, link count and symlink target (C08_rr_reader_recovers_every_entry_after_every_history), continuation areas of different records never meet and never lie in the ER sector (C08_rr_continuation_areas_disjoint_after_every_history); System Use well-formedness and root SP/ER in Proofs/MasterRRProofs.v; tied by masterrrleaf.py (model bytes = the bytes cut out of written images; the reader run on the library\'s bytes).'),
   technique='Coq round-trip proofs for NM/SL splitting and CE allocator invariant + leaf runs + independent SUSP/RRIP reader on generated images',
   design='§8.8'),
  'C09': dict(category='proof',
@@ -190,7 +190,7 @@ CLAIMS.update({
         'and its directory record <= 254 bytes with or without XA -- accepted names are never truncated; the rule over-refuses (refusal, allowed).  Frame theorem: a Joliet-only edit leaves the other '
         'namespaces untouched.  Tie: codec model vs Python\'s codec on every run.  The property itself: name grid around 64 units/64 bytes (BMP, non-BMP; files and directories; levels 1-3): refused or stored '
         'exactly; on generated Joliet images the independent reader\'s Joliet tree equals the tree built, every Joliet file shares the extents of its ISO9660 link, SVD sizes/path tables consistent.'),
-  note='Joliet path tables and directory sizes reuse the C03/C04 machinery (sampled per image). Trusted: Coq kernel + vm_compute, LongNames.v (UTF-16 part), reader.',
+  note='Added Model/MasterJoliet.v: the BYTES of every Joliet directory extent and of both Joliet path tables over the ISO9660+Joliet object graph of Model/AccountNs.v, and an independent reader that starts at the SVD root pointer and decodes identifiers as UTF-16BE: for every well-formed state and for every state reached by an accepted history the reader recovers exactly the Joliet tree (C09_joliet_reader_recovers_the_tree, ..._after_every_history), every Joliet file record carries the extent and length of its ISO9660 link and data of different contents never meet (C09_joliet_same_sectors_as_the_iso9660_link); path table consistency, region disjointness and the sort order (ascending by UTF-16BE code units = ECMA-119 order with (00) padding; refuted for (20) padding) are proved in Proofs/MasterJoliet*.v; hypothesis: at most 65535 directories (beyond that the library accepts the edits and cannot write: known finding); tied by masterjolietleaf.py (Joliet directory blocks and path tables cut out of written images; the reader run on the library\'s bytes).  Trusted: Coq kernel + vm_compute, LongNames.v (UTF-16 part), reader.',
   technique='Coq codec round-trip and fit proofs + name-limit grid + independent reader on generated Joliet images',
   design='§8.9'),
  'C10': dict(category='proof',
@@ -199,7 +199,7 @@ CLAIMS.update({
         'Everything else is decided on generated UDF images (fresh and reopened-then-edited; identifier areas ending exactly on a sector boundary; Latin-1/UCS-2 names; non-Latin-1 symlink components; '
         'cross-namespace links; empty files) by an independent ECMA-167 reader that starts from the recognition sequence and the anchors, verifies every tag it passes, partition bounds and information '
         'lengths, and must recover exactly the tree, names, targets and bytes.'),
-  note='partial: Model/UdfVds.v (recognition sequence, anchors, volume descriptor sequence, integrity, file set: every descriptor verifies and round-trips, sizes and counters stay in step) and Model/UdfDir.v (one directory under adds/removals: information length, blocks granted, Logical Blocks Recorded, placement) were added, tied by vdleaf.py / udfdirleaf.py; Model/Udf.v covers tag, short/long AD, ICB tag, FID and File Entry (+ splitting into allocation descriptors): recorded descriptors verify for an independent checker, parse.record = id, extents sum to the length and chain; tied by udfleaf.py incl. descriptors cut out of written images.  Model/UdfLayout.v: where _reshuffle_extents puts every File Entry, identifier area and file content of a WHOLE UDF tree and what every pointer says -- for every well-formed tree a reader that follows recorded pointers only recovers the namespace (C10_udf_reader_recovers_the_namespace), the regions tile the partition exactly and shared inodes are stored once (C10_udf_layout_disjoint), every directory starts with a parent FID pointing at its parent\'s File Entry, the integrity descriptor counts file NAMES and directories incl. the root after EVERY history (C10_udf_counts_after_every_history); for files over 0xfffff800 bytes disjointness is REFUTED (C10_udf_layout_disjoint_refuted: the File Entry is linked to the last piece with the full length) -- reproduced on pycdlib, recorded as a known finding; tied by udflayoutleaf.py (per history, every extent/ICB/tag location/descriptor/counter read off the object graph; descriptor-overlap oracle).  UDF beside Joliet/Rock Ridge, reopened UDF images and descriptor BYTES of whole trees are checked by the reader on sampled images only.',
+  note='partial: Model/UdfVds.v (recognition sequence, anchors, volume descriptor sequence, integrity, file set: every descriptor verifies and round-trips, sizes and counters stay in step) and Model/UdfDir.v (one directory under adds/removals: information length, blocks granted, Logical Blocks Recorded, placement) were added, tied by vdleaf.py / udfdirleaf.py; Model/Udf.v covers tag, short/long AD, ICB tag, FID and File Entry (+ splitting into allocation descriptors): recorded descriptors verify for an independent checker, parse.record = id, extents sum to the length and chain; tied by udfleaf.py incl. descriptors cut out of written images.  Model/UdfLayout.v: where _reshuffle_extents puts every File Entry, identifier area and file content of a WHOLE UDF tree and what every pointer says -- for every well-formed tree a reader that follows recorded pointers only recovers the namespace (C10_udf_reader_recovers_the_namespace), the regions tile the partition exactly and shared inodes are stored once (C10_udf_layout_disjoint), every directory starts with a parent FID pointing at its parent\'s File Entry, the integrity descriptor counts file NAMES and directories incl. the root after EVERY history (C10_udf_counts_after_every_history); for files over 0xfffff800 bytes disjointness is REFUTED (C10_udf_layout_disjoint_refuted: the File Entry is linked to the last piece with the full length) -- reproduced on pycdlib, recorded as a known finding; tied by udflayoutleaf.py (per history, every extent/ICB/tag location/descriptor/counter read off the object graph; descriptor-overlap oracle).  Model/UdfParse.v: pycdlib\'s OWN parser of the UDF tree (_walk_udf_directories / _parse_udf_file_entry) on the recorded summaries: for every well-formed tree the opened object IS the writer\'s graph (C10_udf_open_gives_the_writers_graph), nothing valid is rejected, every name gets a File Entry object of its own (C10_udf_open_file_entry_objects_never_shared), two names share an Inode iff same first data block / same File Entry block for empty files (C10_udf_open_shares_inode_iff_same_extent), laying the opened tree out again gives the same layout (C10_udf_reopen_layout_fixpoint); an empty file with an ISO9660 name loses the link on reopen (refuted theorem = the stated Reopen semantics); tied by udfparseleaf.py (graph read off the opened object; reopen layout and bytes).  UDF beside Joliet/Rock Ridge and descriptor BYTES of whole trees are checked by the reader on sampled images only.',
   technique='Coq proofs over translated CRC/checksum/length functions + independent ECMA-167 reader on generated images',
   design='§8.10'),
  'C11': dict(category='proof',
@@ -228,7 +228,7 @@ CLAIMS.update({
         'built, fix ce58dfc); uniqueness of names per directory and namespace is an invariant of the specification for every history.  Tie: model vs the real checkers on an exhaustive short-string grid (~45k '
         'cases).  The property itself: a catalogue of rule-breaking edits (duplicates of every kind in every namespace, illegal identifiers per level, over-long names for record / Joliet / UDF, depth) issued '
         'against generated images must raise PyCdlibInvalidInput at once; identifiers of written images unique and legal (independent reader).'),
-  note='Duplicate detection in the object graph (_add_child, add_file_ident_desc) is checked by the edit catalogue on sampled images, not modelled in Coq.',
+  note='Duplicate detection in the object graph (_add_child, add_file_ident_desc) is checked by the edit catalogue on sampled images (and, for the fragments they cover, by the history models AccountNs / AccountRR / UdfLayout / Reloc, whose refusals are compared with the library after every operation).  Directed probes: empty Joliet/UDF names, Rock Ridge entries beyond one continuation block, negative lengths, equal names relocated at level 1, more than 65535 directories (known finding).',
   technique='Coq soundness proofs for the identifier checkers + exhaustive checker grid + rule-breaking-edit catalogue on generated images',
   design='§8.13'),
  'C14': dict(category='proof',
@@ -237,7 +237,7 @@ CLAIMS.update({
         'atomicity.  pycdlib interleaves validation and mutation per namespace, so the full claim is FALSE for late causes: the catalogue of ~45 (call, cause) pairs classifies each as EARLY or LATE '
         '(transcribed from the code) and is validated on every run by fork-and-compare: the refused call is issued on a fresh fork of a generated object, write_fp bytes are compared with the untouched '
         'object, then three further edits are applied to both.  An EARLY cause observed non-atomic is a violation; the 13 LATE causes observed non-atomic are known findings identified by (call, cause).'),
-  note='The stage order of each call is transcribed by hand into the catalogue (trusted, but falsified by the run when wrong in the EARLY direction).',
+  note='The stage order of each call is transcribed by hand into the catalogue (trusted, but falsified by the run when wrong in the EARLY direction).  Also: "candidate" calls (issued on a fork and compared only if they raise, so that refusal causes a changed library adds are covered), base objects with a renamed and used relocation directory, refused new()/open_fp() on a fresh object followed by new().  The history models prove "a refused edit changes nothing" for their fragments (C04_refused_edit_changes_nothing, C04_rr_..., C08_relocation_..., C11_boot_..., C17_refused_call_writes_nothing) with the late refusals modelled as they are.',
   technique='Coq atomicity theorems for staged execution + fork-and-compare of refused calls against a per-cause early/late catalogue',
   design='§8.14'),
  'C15': dict(category='other',
